@@ -90,7 +90,8 @@ def rand_mixed_tree(rng, depth):
     if depth <= 0 or r < 0.2:
         k = rng.random()
         if k < 0.3:
-            return ("V", rng.choice("xyz"))
+            # variable names are case-sensitive: `x` and `X` are different variables
+            return ("V", rng.choice("xyzxyzXYZ"))
         if k < 0.6:
             return ("I", rng.randint(-12, 12))
         return ("F", Fraction(rng.choice([1, 3, 5, 7, -1, -5, 25, 1]), rng.choice([2, 4, 8, 10, 5])))
@@ -300,9 +301,9 @@ def c05(ctx):
     for _ in range(3000 if quick else 60000):
         t = rand_mixed_tree(rng, rng.choice([2, 3, 4]))
         env = {}
-        for v in "xyz":
+        for v in "xyzXYZ":
             r = rng.random()
-            if r < 0.08:
+            if r < (0.08 if v in "xyz" else 0.5):
                 continue  # missing
             if r < 0.12:
                 env[v] = None
